@@ -77,7 +77,7 @@ class ExprMixin:
         c = ops.truth_val(self, self.eval(e.test, env))
         if isinstance(c, bool):
             return self.eval(e.body if c else e.orelse, env)
-        if self.is_pure(e.body) and self.is_pure(e.orelse):
+        if self.is_pure(e.body, env) and self.is_pure(e.orelse, env):
             # value-level merge of side-effect free branches (each evaluated under its own assumption
             # only matters for exceptions; pure expressions here cannot raise except through None arithmetic)
             try:
@@ -92,16 +92,31 @@ class ExprMixin:
             return self.eval(e.body, env)
         return self.eval(e.orelse, env)
 
-    _PURE_CALLS = {"int", "bool"}
+    _PURE_BUILTINS = {"int", "bool", "len", "isinstance", "type", "str", "abs", "min", "max"}
 
-    def is_pure(self, e) -> bool:
-        """Syntactic: no calls (except int()/bool()), no walrus, no comprehension, no division."""
+    def is_pure(self, e, env=None) -> bool:
+        """No side effects: no calls except to side-effect-free builtins / fixedint constructors, no walrus,
+        no comprehension.  (Exceptions are possible; speculative evaluation falls back to forking on them.)"""
         for n in ast.walk(e):
             if isinstance(n, ast.Call):
-                if not (isinstance(n.func, ast.Name) and n.func.id in self._PURE_CALLS):
+                f = n.func
+                ok = False
+                if isinstance(f, ast.Name):
+                    if env is not None:
+                        try:
+                            v = self.load_name(f.id, env)
+                        except PyRaise:
+                            v = None
+                        ok = isinstance(v, FixedType) or (isinstance(v, type) and v in (int, bool, str)) or \
+                            (isinstance(v, Builtin) and v.name in self._PURE_BUILTINS)
+                    else:
+                        ok = f.id in ("int", "bool")
+                elif isinstance(f, ast.Attribute) and isinstance(f.value, ast.Name) and f.value.id == "fixedint":
+                    ok = True
+                if not ok:
                     return False
             elif isinstance(n, (ast.NamedExpr, ast.ListComp, ast.GeneratorExp, ast.DictComp, ast.SetComp, ast.Await,
-                                ast.Yield, ast.Subscript, ast.Div, ast.FloorDiv, ast.Mod, ast.LShift, ast.RShift, ast.Pow)):
+                                ast.Yield, ast.Lambda)):
                 return False
         return True
 
@@ -119,7 +134,7 @@ class ExprMixin:
                 continue
             # symbolic: merge when the rest is pure and boolean-valued, else fork
             rest = e.values[i + 1:]
-            if isinstance(v, SBool) and all(self.is_pure_bool(r) for r in rest):
+            if isinstance(v, SBool) and all(self.is_pure_bool(r, env) for r in rest):
                 try:
                     acc = v.t
                     ok = True
@@ -139,8 +154,8 @@ class ExprMixin:
                 return v
         return v
 
-    def is_pure_bool(self, e) -> bool:
-        if not self.is_pure(e):
+    def is_pure_bool(self, e, env=None) -> bool:
+        if not self.is_pure(e, env):
             return False
         if isinstance(e, ast.Compare):
             return all(isinstance(o, (ast.Eq, ast.NotEq, ast.Lt, ast.LtE, ast.Gt, ast.GtE, ast.Is, ast.IsNot)) for o in e.ops)
@@ -205,7 +220,10 @@ class ExprMixin:
         if op == "or" and isinstance(a, set) and isinstance(b, set):
             return a | b
         if op == "mod" and isinstance(a, str):
-            raise Unsupported("%-formatting")
+            bb = b if isinstance(b, tuple) else (b,)
+            if all(isinstance(x, (int, str, float)) for x in bb):
+                return a % b
+            raise Unsupported("%-formatting of symbolic values")
         if isinstance(a, Obj):
             m, _ = a.cls.lookup("__%s__" % op)
             if m is not None:
@@ -472,6 +490,13 @@ class ExprMixin:
                     return o[i]
                 except IndexError:
                     self.raise_builtin("IndexError", "string index out of range")
+            if "0123456789ABCDEF".startswith(o) and len(o) >= 2:
+                t = i.t
+                if not self.path.decide(ir.band_(ir.le(0, t), ir.lt(t, len(o))), "string-index-in-range"):
+                    if self.path.decide(ir.band_(ir.le(-len(o), t), ir.lt(t, 0)), "string-index-negative"):
+                        raise Unsupported("negative symbolic string index")
+                    self.raise_builtin("IndexError", "string index out of range")
+                return SymStr([("bit" if len(o) == 2 else "hexd", ir.mod(t, 16) if len(o) == 16 else t)])
             raise Unsupported("symbolic index into string")
         if isinstance(o, SymStr):
             ch = o.chars()
